@@ -272,7 +272,8 @@ func (d *TSDDecoder) Seek(slot uint16) bool {
 	for d.idx+d.startTime < slot {
 		if d.HasValueWithSlot(d.idx + d.startTime) {
 			_ = d.Value()
-		} else {
+		} else if d.err != nil {
+			// NOTE: slot without value is skipped like the others, only decode failure stops the seek.
 			return false
 		}
 	}
